@@ -3,37 +3,40 @@
 (* behaviours (-simulate) that harness `ckptsim` executes on real stores.      *)
 EXTENDS ZCkpt, TLC
 
-CONSTANTS MaxId,      \* number of distinct entries written
-          MaxTerm,    \* bound on restores (each takes a new term)
-          MaxCkpt     \* bound on checkpoints per backup directory
+CONSTANTS MaxLen,     \* length of the replicated log
+          MaxTerm,    \* raft terms 1..MaxTerm
+          MaxCkpt,    \* bound on checkpoints per backup directory
+          MaxRestore  \* bound on the number of restores in a behaviour
 
-Names(s) == {NameOf(c) : c \in ckpts[s]}
+VARIABLE nrestore
 
-Init == CInit
+mvars == <<log, applied, ckpts, flight, snapIdx, born, gone, nrestore>>
+
+Init == CInit /\ nrestore = 0
 
 \* one named action per disjunct so that TLC's action labels carry the arguments
-MWrite(s)         == nextId <= MaxId /\ Write(s)
-MBackupBegin(s)   == Cardinality(ckpts[s]) < MaxCkpt /\ BackupBegin(s)
-MBackupCut(s)     == BackupCut(s)
-MBackupNotify(s)  == BackupNotify(s)
-MBackupDone(s)    == BackupDone(s)
-MRecordSnap(s, t, i) == RecordSnap(s, t, i)
-MPurge(s, V)      == Purge(s, V)
-MRestore(s, t, i) == gterm < MaxTerm /\ Restore(s, t, i)
-MFetch(from, to, t, i) == Cardinality(ckpts[to]) < MaxCkpt /\ Fetch(from, to, t, i)
+MApply(s, t)      == (applied[s] < Len(log) \/ Len(log) < MaxLen) /\ Apply(s, t) /\ UNCHANGED nrestore
+MBackupBegin(s)   == Cardinality(ckpts[s]) < MaxCkpt /\ BackupBegin(s) /\ UNCHANGED nrestore
+MBackupCut(s)     == BackupCut(s) /\ UNCHANGED nrestore
+MBackupNotify(s)  == BackupNotify(s) /\ UNCHANGED nrestore
+MBackupDone(s)    == BackupDone(s) /\ UNCHANGED nrestore
+MRecordSnap(s, t, i) == RecordSnap(s, t, i) /\ UNCHANGED nrestore
+MPurge(s, V)      == Purge(s, V) /\ UNCHANGED nrestore
+MRestore(s, t, i) == nrestore < MaxRestore /\ Restore(s, t, i) /\ nrestore' = nrestore + 1
+MFetch(from, to, t, i) == Cardinality(ckpts[to]) < MaxCkpt /\ Fetch(from, to, t, i) /\ UNCHANGED nrestore
 
 AllCk == UNION {ckpts[s] : s \in Stores}
 
 Next ==
-  \/ \E s \in Stores : MWrite(s)
+  \/ \E s \in Stores, t \in 1..MaxTerm : MApply(s, t)
   \/ \E s \in Stores : MBackupBegin(s)
   \/ \E s \in Stores : MBackupCut(s)
   \/ \E s \in Stores : MBackupNotify(s)
   \/ \E s \in Stores : MBackupDone(s)
-  \/ \E s \in Stores, t \in 1..MaxTerm, i \in 1..MaxId : MRecordSnap(s, t, i)
+  \/ \E s \in Stores, t \in 1..MaxTerm, i \in 1..MaxLen : MRecordSnap(s, t, i)
   \/ \E s \in Stores, V \in SUBSET AllCk : MPurge(s, V)
-  \/ \E s \in Stores, t \in 1..MaxTerm, i \in 1..MaxId : MRestore(s, t, i)
-  \/ \E from \in Stores, to \in Stores, t \in 1..MaxTerm, i \in 1..MaxId : MFetch(from, to, t, i)
+  \/ \E s \in Stores, t \in 1..MaxTerm, i \in 1..MaxLen : MRestore(s, t, i)
+  \/ \E from \in Stores, to \in Stores, t \in 1..MaxTerm, i \in 1..MaxLen : MFetch(from, to, t, i)
 
-Spec == Init /\ [][Next]_cvars
+Spec == Init /\ [][Next]_mvars
 =============================================================================
